@@ -51,7 +51,11 @@ Record env := mkEnv {
 }.
 Definition env0 := mkEnv [] 0 [] [] [].
 
-Inductive ev := Cancel (c : nat) | Fire (w : nat).
+Inductive ev :=
+| Cancel (c : nat)      (* cancel(ctx_c) *)
+| Fire (w : nat)        (* the watcher goroutine armed by the w-th start() gets to run *)
+| Reenter.              (* another goroutine calls Run/RunCode/Call on the VM while it is running: start() refuses
+                           ("vm is already running") and touches nothing *)
 
 Definition is_cancelled (e : env) (c : nat) := mem c (cancelled e).
 Definition cell_set (e : env) (k : nat) := mem k (setcells e).
@@ -69,7 +73,7 @@ Definition do_fire (w : nat) (e : env) : env :=
   | None => e
   end.
 Definition do_ev (x : ev) (e : env) : env :=
-  match x with Cancel c => do_cancel c e | Fire w => do_fire w e end.
+  match x with Cancel c => do_cancel c e | Fire w => do_fire w e | Reenter => e end.
 Definition do_evs (xs : list ev) (e : env) : env := fold_left (fun e x => do_ev x e) xs e.
 
 Definition alloc_cell (e : env) : nat * env :=
